@@ -578,6 +578,15 @@ def fam_single(ctx, ld, L, okL, siteL, tier, seed):
         if not (finite(cp, cd, cl) and cp.shape == (3,)):
             ctx.fail(cid, 'Plucker.closest', nfkind(cp, cd, cl), p, 'closest(%s) = %r' % (f3(x), val))
             continue
+        # the documented order of the result is (p, d, lam): reading it positionally gives the same three things as the field names
+        try:
+            up, ud, ul = val
+            same_order = np.array_equal(vec(up), cp) and float(ud) == cd and float(ul) == cl and np.array_equal(vec(val[0]), cp) and float(val[1]) == cd and float(val[2]) == cl
+        except Exception:
+            same_order = False
+        if not same_order:
+            ctx.fail(cid, 'Plucker.closest', 'mismatch', dict(p, field='order'), 'closest(%s) unpacked as (p, d, lam) is not (.p, .d, .lam): %r' % (f3(x), val))
+            continue
         ft = foot(x, ld.pref, ld.uref)
         dd = pl_dist(x, ld.pref, ld.uref)
         if not norm(cp - ft) <= TOL * M:
